@@ -89,6 +89,25 @@ def cases(tier, rng):
                 cs.expect = ("healthy", 1, sizes, seed - len(sizes))
                 out.append(cs)
                 n += 1
+        # a CROWD of healthy subscribers around one that breaks at its high-water mark: whatever the hash order of the
+        # peer table, the broken one almost surely has a successor in the walk — every healthy one must get every message
+        for kind in ("BrokenPipe", "ConnectionReset"):
+            for victim in ((5,) if tier == "quick" else (1, 5, 9)):
+                sc = wg.Script()
+                setup(sc, typ, 9)
+                sc.add(f"credit {victim[0] if isinstance(victim, tuple) else victim} 0")
+                v = victim[0] if isinstance(victim, tuple) else victim
+                sizes = [65536, 65536, 65536, 7, 300, 7, 7]
+                first = seed
+                for j, sz in enumerate(sizes):
+                    if j == 3:
+                        sc.add(f"wrerr {v} {kind}")
+                    seed += 1
+                    publish(sc, 9, sz, seed)
+                cs = sc.case(f"crowd-{typ}-{kind}#{n}", ["crowd-" + typ])
+                cs.expect = ("crowd", [q for q in range(1, 10) if q != v], sizes, first)
+                out.append(cs)
+                n += 1
         # seeded stall / resume
         for _ in range(120 if tier == "quick" else 1500):
             k = rng.randint(1, 3)
@@ -150,11 +169,13 @@ def oracle(case, lines):
                 return f"a subscriber that accepts every write received {written} bytes instead of {want}"
     else:
         _, p, sizes, s0 = case.expect
-        wires = [l for op, l in res if op == f"wire {p}"][1:]
-        for j, s in enumerate(sizes):
-            want = "wire " + wg.show_wire([[("gen", s, s0 + 1 + j)]])
-            if j >= len(wires) or wires[j] != want:
-                return f"the healthy subscriber missed or got a corrupted message #{j} ({s} bytes): {wires[j][:70] if j < len(wires) else None}"
+        for p in (p if isinstance(p, list) else [p]):
+            wires = [l for op, l in res if op == f"wire {p}"][1:]
+            for j, s in enumerate(sizes):
+                want = "wire " + wg.show_wire([[("gen", s, s0 + 1 + j)]])
+                if j >= len(wires) or wires[j] != want:
+                    return (f"the healthy subscriber {p} missed or got a corrupted message #{j} ({s} bytes): "
+                            f"{wires[j][:70] if j < len(wires) else None}")
     return None
 
 
